@@ -43,7 +43,7 @@ def main():
         return 1 if out.get('fails') else 0
 
     t0 = time.time()
-    b = core.build(prop)
+    b = core.build(prop, tier=tier)
     rep = core.Report(prop, tier, seed)
     print('[%s] build %.1fs model_ok=%s driver_ok=%s proof_ok=%s axioms_ok=%s obligations=%d'
           % (prop, b.wall, b.model_ok, b.driver_ok, b.proof_ok, b.axioms_ok, b.obligations), flush=True)
